@@ -61,16 +61,16 @@ class Agg(V):
 
 class Str(V):
     """immutable byte string slice (str / [u8]); elements are python ints or z3 BV8 terms"""
-    __slots__=('b','is_str','taint')
-    def __init__(self,b,is_str=True,taint=False): self.b=list(b); self.is_str=is_str; self.taint=taint
+    __slots__=('b','is_str','taint','ghost')
+    def __init__(self,b,is_str=True,taint=False,ghost=None): self.b=list(b); self.is_str=is_str; self.taint=taint; self.ghost=ghost
     def __repr__(self):
         try: return 'Str(%r)'%bytes(self.b)
         except Exception: return 'Str(sym,len=%d)'%len(self.b)
 
 class StringO(V):
     """owned String (mutable byte list)"""
-    __slots__=('b','taint')
-    def __init__(self,b,taint=False): self.b=list(b); self.taint=taint
+    __slots__=('b','taint','ghost')
+    def __init__(self,b,taint=False,ghost=None): self.b=list(b); self.taint=taint; self.ghost=ghost
     def __repr__(self):
         try: return 'String(%r%s)'%(bytes(self.b),'~' if self.taint else '')
         except Exception: return 'String(sym,len=%d)'%len(self.b)
